@@ -53,7 +53,6 @@ func newIVWithTables(w *World, tb *TB, ef *Effects) *IV {
 
 type hotpPipe struct {
 	der    *ssa.Function
-	roles  derivRoles
 	sum    *ssa.Call
 	sumT   *Term
 	modT   *Term
@@ -62,11 +61,10 @@ type hotpPipe struct {
 
 // checkHOTPDerivation applies the RFC 4226 composition rules to one derivation function.
 // roles give the parameter indices of key, counter, digits and algorithm.
-func checkHOTPDerivation(c *Check, w *World, tb *TB, iv *IV, ef *Effects, pfx string, der *ssa.Function, roles derivRoles, sent map[string]bool) *hotpPipe {
+func checkHOTPDerivation(c *Check, w *World, tb *TB, iv *IV, ef *Effects, pfx string, der *ssa.Function, roles roleTerms, sent map[string]bool, dLo, dHi int64) *hotpPipe {
 	fn := FuncName(der)
 	pos := w.Pos(der.Pos())
-	P := func(i int) string { return fmt.Sprintf("param(%s#%d)", fn, i) }
-	pipe := &hotpPipe{der: der, roles: roles}
+	pipe := &hotpPipe{der: der}
 	sums := sumCallsIn(der)
 	if len(sums) != 1 {
 		c.Unk(pfx+".4", fn, "hmac", fmt.Sprintf("%d HMAC finalisations in the derivation, expected exactly one", len(sums)), pos)
@@ -100,7 +98,7 @@ func checkHOTPDerivation(c *Check, w *World, tb *TB, iv *IV, ef *Effects, pfx st
 	case macT.Op == "call" && macT.Sym == "crypto/hmac.New" && len(macT.Args) == 2:
 		keyT = macT.Args[1]
 		// hash chosen by a switch on the algorithm: each case must select the hash of the same name
-		tabl := enumSwitchFuncs(w, tb, der, P(roles.Algo))
+		tabl := enumSwitchFuncs(w, tb, der, roles.Algo)
 		for k, want := range wantHash {
 			got := tabl[k]
 			c.Decide(got == want, pfx+".4", fn, fmt.Sprintf("hash-case[%d]", k), "algorithm case selects "+want, fmt.Sprintf("algorithm %d selects %q, expected %s", k, got, want), pos)
@@ -114,11 +112,11 @@ func checkHOTPDerivation(c *Check, w *World, tb *TB, iv *IV, ef *Effects, pfx st
 		c.Unk(pfx+".4", fn, "hmac-constructor", "HMAC object is not built by the constructor table or hmac.New: "+clip(macT.String(), 200), w.InstrPos(sum))
 	}
 	if algoIdx != nil {
-		c.Decide(algoIdx.String() == P(roles.Algo), pfx+".4", fn, "hash-index", "the constructor is selected by the algorithm argument", "the constructor table is indexed by "+clip(algoIdx.String(), 120)+", not by the algorithm argument", w.InstrPos(sum))
+		c.Decide(algoIdx.String() == roles.Algo, pfx+".4", fn, "hash-index", "the constructor is selected by the algorithm argument", "the constructor table is indexed by "+clip(algoIdx.String(), 120)+", not by the algorithm argument", w.InstrPos(sum))
 	}
 	// --- R.6 key path ---
 	if keyT != nil {
-		c.Decide(keyT.String() == P(roles.Key), pfx+".6", fn, "hmac-key", "the HMAC key is the decoded secret itself (no slicing, hashing, padding or copy on the way)", "the HMAC key is "+clip(keyT.String(), 160)+", not the decoded secret unchanged", w.InstrPos(sum))
+		c.Decide(keyT.String() == roles.Key, pfx+".6", fn, "hmac-key", "the HMAC key is the decoded secret itself (no slicing, hashing, padding or copy on the way)", "the HMAC key is "+clip(keyT.String(), 160)+", not the decoded secret unchanged", w.InstrPos(sum))
 	}
 	// --- R.5 counter path ---
 	var writes []ssa.CallInstruction
@@ -136,7 +134,7 @@ func checkHOTPDerivation(c *Check, w *World, tb *TB, iv *IV, ef *Effects, pfx st
 			puts = append(puts, ci)
 		}
 	})
-	if roles.Counter >= 0 {
+	if roles.Counter != "" {
 		okCounter := false
 		why := ""
 		switch {
@@ -153,7 +151,7 @@ func checkHOTPDerivation(c *Check, w *World, tb *TB, iv *IV, ef *Effects, pfx st
 			switch {
 			case pn != "(encoding/binary.bigEndian).PutUint64":
 				why = "the counter is encoded with " + pn + ", not big-endian PutUint64"
-			case tb.Of(valArg).String() != P(roles.Counter):
+			case tb.Of(valArg).String() != roles.Counter:
 				why = "the value encoded is " + clip(tb.Of(valArg).String(), 120) + ", not the counter argument unchanged"
 			case !wholeArray8(bufArg) || !wholeArray8(wbuf):
 				why = "the encode buffer / the bytes written to the HMAC are not the whole 8-byte array"
@@ -178,7 +176,7 @@ func checkHOTPDerivation(c *Check, w *World, tb *TB, iv *IV, ef *Effects, pfx st
 		c.Decide(okCounter, pfx+".5", fn, "counter-message", "the HMAC message is exactly the 8-byte big-endian encoding of the counter argument", "message construction differs from RFC 4226: "+why, pos)
 		// counter isolation: the counter has no other use
 		uses := 0
-		if refs := der.Params[roles.Counter].Referrers(); refs != nil {
+		if refs := roles.CounterParam.Referrers(); roles.CounterParam != nil && refs != nil {
 			for _, r := range *refs {
 				if _, dbg := r.(*ssa.DebugRef); !dbg {
 					uses++
@@ -210,7 +208,7 @@ func checkHOTPDerivation(c *Check, w *World, tb *TB, iv *IV, ef *Effects, pfx st
 			nCodes++
 			rend := cl.Call.StaticCallee()
 			numT, dT := alt.Args[0], alt.Args[1]
-			c.Decide(dT.String() == P(roles.Digits), pfx+".8", fn, "render-length:"+FuncName(rend), "the renderer gets the digits argument as length", "the renderer is given length "+clip(dT.String(), 100)+", not the digits argument", w.InstrPos(cl))
+			c.Decide(dT.String() == roles.Digits, pfx+".8", fn, "render-length:"+FuncName(rend), "the renderer gets the digits argument as length", "the renderer is given length "+clip(dT.String(), 100)+", not the digits argument", w.InstrPos(cl))
 			// number = truncate(sum, mod)
 			exp := tb.Expand(numT, 2)
 			// find the modulus: the sub-term index(gval(table); D)
@@ -228,7 +226,7 @@ func checkHOTPDerivation(c *Check, w *World, tb *TB, iv *IV, ef *Effects, pfx st
 				c.Unk(pfx+".1", fn, "modulus", "the reduction modulus does not come from a package-level table indexed by the digits: "+clip(numT.String(), 200), w.InstrPos(cl))
 			} else {
 				pipe.modT = modT
-				c.Decide(modT.Args[1].String() == P(roles.Digits), pfx+".1", fn, "modulus-index", "the modulus table is indexed by the digits argument", "the modulus table is indexed by "+clip(modT.Args[1].String(), 100), w.InstrPos(cl))
+				c.Decide(modT.Args[1].String() == roles.Digits, pfx+".1", fn, "modulus-index", "the modulus table is indexed by the digits argument", "the modulus table is indexed by "+clip(modT.Args[1].String(), 100), w.InstrPos(cl))
 				if !seenRend[rend] {
 					checkTruncation(c, w, pfx+".7", fn, exp, sumT, modT, w.InstrPos(cl))
 				}
@@ -255,9 +253,9 @@ func checkHOTPDerivation(c *Check, w *World, tb *TB, iv *IV, ef *Effects, pfx st
 		}
 		it := tb.Of(ia.Index).String()
 		switch {
-		case roles.Digits >= 0 && it == P(roles.Digits):
-			checkIndexGate(c, w, iv, pfx+".2", fn, "digits-gate@"+g.Name(), ia.Index, in, 1, 10, "the code length")
-		case roles.Algo >= 0 && it == P(roles.Algo):
+		case roles.Digits != "" && it == roles.Digits:
+			checkIndexGate(c, w, iv, pfx+".2", fn, "digits-gate@"+g.Name(), ia.Index, in, dLo, dHi, "the code length")
+		case roles.Algo != "" && it == roles.Algo:
 			checkIndexGate(c, w, iv, pfx+".3", fn, "algorithm-gate@"+g.Name(), ia.Index, in, 0, 2, "the hash selector")
 		}
 	})
@@ -265,32 +263,45 @@ func checkHOTPDerivation(c *Check, w *World, tb *TB, iv *IV, ef *Effects, pfx st
 		if len(r.Results) != 2 {
 			continue
 		}
-		r0, r1 := tb.Of(r.Results[0]), tb.Of(r.Results[1])
 		construct := fmt.Sprintf("code-error-pairing#%d", i)
-		// with defer-spilled results both are phis over the same paths: pair alternatives by store blocks
-		pairs := pairSpilled(tb, r)
-		if pairs == nil {
-			pairs = [][2]*Term{{r0, r1}}
+		type pr struct {
+			v0, v1 ssa.Value
+			b      *ssa.BasicBlock
+		}
+		var pairs []pr
+		if sp := pairSpilled(r); sp != nil {
+			for _, x := range sp {
+				pairs = append(pairs, pr{x.v0, x.v1, x.b})
+			}
+		} else {
+			pairs = []pr{{r.Results[0], r.Results[1], r.Block()}}
 		}
 		ok := true
 		for _, p := range pairs {
-			codeEmpty := p[0].IsConst() && p[0].Sym == `""`
-			errNil := p[1].IsConst() && p[1].Sym == "nil"
-			errSent := p[1].Op == "gval" && sent[p[1].Sym] || (p[1].Op == "call" && errConstructors[p[1].Sym])
-			if !((codeEmpty && errSent) || (!codeEmpty && errNil && p[0].Op == "call")) {
+			t0, t1 := tb.Of(p.v0), tb.Of(p.v1)
+			codeEmpty := t0.IsConst() && t0.Sym == `""`
+			errNil := t1.IsConst() && t1.Sym == "nil"
+			errNonNil := nonNilAt(tb, p.v1, CondsAt(p.b), sent, 0)
+			isCode := t0.Op == "call"
+			if !((codeEmpty && errNonNil) || (isCode && errNil)) {
 				ok = false
-				c.Bad(pfx+".2", fn, construct, fmt.Sprintf("a return pairs code %s with error %s: a refusal must return no code and a non-nil error, a code must come with a nil error", clip(p[0].String(), 80), clip(p[1].String(), 80)), w.InstrPos(r))
+				c.Bad(pfx+".2", fn, construct, fmt.Sprintf("a return pairs code %s with error %s: a refusal must return no code and a non-nil error, a code must come with a nil error", clip(t0.String(), 80), clip(t1.String(), 80)), w.InstrPos(r))
 			}
 		}
 		if ok {
-			c.OK(pfx+".2", fn, construct, "every return is (rendered code, nil) or (\"\", non-nil sentinel error)", w.InstrPos(r))
+			c.OK(pfx+".2", fn, construct, "every return is (rendered code, nil) or (\"\", provably non-nil error)", w.InstrPos(r))
 		}
 	}
 	return pipe
 }
 
 // pairSpilled pairs the (result0, result1) values stored into defer-spilled result cells block by block.
-func pairSpilled(tb *TB, r *ssa.Return) [][2]*Term {
+type spilledPair struct {
+	v0, v1 ssa.Value
+	b      *ssa.BasicBlock
+}
+
+func pairSpilled(r *ssa.Return) []spilledPair {
 	if len(r.Results) != 2 {
 		return nil
 	}
@@ -304,26 +315,36 @@ func pairSpilled(tb *TB, r *ssa.Return) [][2]*Term {
 	if !ok0 || !ok1 {
 		return nil
 	}
-	byBlock := map[*ssa.BasicBlock][2]*Term{}
+	byBlock := map[*ssa.BasicBlock]*spilledPair{}
+	var order []*ssa.BasicBlock
 	collect := func(a *ssa.Alloc, idx int) {
 		if refs := a.Referrers(); refs != nil {
 			for _, in := range *refs {
 				if st, ok := in.(*ssa.Store); ok && st.Addr == ssa.Value(a) {
 					p := byBlock[st.Block()]
-					p[idx] = tb.Of(st.Val)
-					byBlock[st.Block()] = p
+					if p == nil {
+						p = &spilledPair{b: st.Block()}
+						byBlock[st.Block()] = p
+						order = append(order, st.Block())
+					}
+					if idx == 0 {
+						p.v0 = st.Val
+					} else {
+						p.v1 = st.Val
+					}
 				}
 			}
 		}
 	}
 	collect(a0, 0)
 	collect(a1, 1)
-	var out [][2]*Term
-	for _, p := range byBlock {
-		if p[0] == nil || p[1] == nil {
+	var out []spilledPair
+	for _, b := range order {
+		p := byBlock[b]
+		if p.v0 == nil || p.v1 == nil {
 			return nil
 		}
-		out = append(out, p)
+		out = append(out, *p)
 	}
 	return out
 }
@@ -504,7 +525,7 @@ func runC01(c *Check, w *World) {
 	c.Decide(h.Args[roles.Key].String() == wantKey, "R01.6", fn, "key-is-decoded-secret", "the derivation key is DecodeSecret(secret) unchanged", "the key handed to the derivation is "+clip(h.Args[roles.Key].String(), 160), w.InstrPos(h.Call))
 	c.Decide(h.Args[roles.Counter].String() == fmt.Sprintf("param(%s#%d)", fn, cp), "R01.5", fn, "counter-is-callers", "the derivation counter is the caller's counter unchanged", "the counter handed to the derivation is "+clip(h.Args[roles.Counter].String(), 160), w.InstrPos(h.Call))
 	checkParamResolution(c, w, tb, "R01.9", gen, h, roles, "DefaultHOTPParam", 6, 0)
-	pipe := checkHOTPDerivation(c, w, tb, iv, ef, "R01", der, roles, sent)
+	pipe := checkHOTPDerivation(c, w, tb, iv, ef, "R01", der, roles.terms(der), sent, 1, 10)
 	if pipe != nil && pipe.modT != nil {
 		checkModTable(c, w, "R01.1", strings.TrimPrefix(pipe.modT.Args[0].Sym, "otp."), 1, 10)
 	}
